@@ -72,6 +72,17 @@ def run(ck, F):
                 ck.fail(R3, f['id'] + ' -> ' + q, f'{f["id"]} calls {q}, which keeps hidden static state', loc=f['loc'], fn=f['id'])
         n += 1
         ck.ok(R3, f['id'])
+    R3b = ck.rule('C20.no-process-wide-setting', 'no library function changes a setting of the whole process (the default memory resource, the '
+                  'global locale, the terminate / new handlers, the C locale, the synchronisation of the standard streams): such a setting is '
+                  'state shared by every Lexicon and every thread, whatever object the call is made from', floor=1000)
+    PROCESS_SETTERS = ('std::pmr::set_default_resource', 'std::locale::global', 'std::set_terminate', 'std::set_new_handler', 'std::setlocale',
+                       'setlocale', 'std::ios_base::sync_with_stdio', 'std::signal', 'signal', 'std::atexit', 'atexit', 'std::at_quick_exit',
+                       'std::srand', 'srand', 'putenv', 'setenv')
+    for f in F.fn.values():
+        hits = sorted({(c.get('callee') or {}).get('q', '').split('<')[0] for c in walk(f.get('body'))
+                       if c.get('k') == 'call' and (c.get('callee') or {}).get('q', '').split('<')[0] in PROCESS_SETTERS})
+        ck.check(R3b, f['id'], not hits, f'{f["id"]} calls {hits}: a process-wide setting that every other Lexicon and thread then lives with',
+                 loc=f['loc'], fn=f['id'])
     R4 = ck.rule('C20.tables-are-members', 'the factory classes and the Lexicon have no static data member: every table belongs to '
                  'one Lexicon instance', floor=9)
     import contracts
